@@ -481,7 +481,7 @@ Proof.
     + intros -> n rest Hp. destruct args as [|a0 args']; [discriminate|]. destruct a0 as [x0 s0|]; [|discriminate].
       apply negb_true_iff in Hb1. apply existsb_eqb_false in Hb1.
       simpl in E2. destruct (meta_id sc x0) as [i0|] eqn:E0; simpl in E2; [|discriminate].
-      destruct (map_opt (pconvert S sc) args'); [|discriminate]. inversion E2; subst. inversion Hp; subst.
+      destruct (map_opt (pconvert S sc) args'); [|discriminate]. rewrite Hp in E2. inversion E2; subst.
       pose proof (lookup_rel S sc t d x0 n HR E0) as L. rewrite (assoc_none _ _ Hb1) in L. exact L.
 Qed.
 
@@ -514,7 +514,7 @@ Theorem scope_injective_thm : forall S sc k sc' p,
       forall x a i j, meta_id sc' x = Some i -> sortvar_id sc' a = Some j -> i <> j).
 Proof.
   intros S sc k sc' p H. apply convert_spec in H. destruct H as [X Y].
-  repeat split; auto.
+  split; [exact X|]. split; [exact Y|]. split; [|split; [|split]].
   - intros x s Hin. pose proof (pconvert_vars_known _ _ _ _ _ _ Y Hin) as Hk.
     destruct (In_index_of _ _ Hk) as [i Hi]. exists (N.of_nat i). unfold meta_id. rewrite Hi. reflexivity.
   - apply meta_id_inj.
